@@ -463,4 +463,8 @@ def gen_reads(rnd, m, st):
     for g in gen:
         if rnd.random() < 0.7:
             reads.append(g)
+    # a plain source file that is an order-only input and is nevertheless read (reported through the depfile only)
+    for f in st.oos:
+        if m.producer(f) is None and f in m.sources and f not in m.phony_sources and rnd.random() < 0.5:
+            reads.append(f)
     return reads
